@@ -23,23 +23,69 @@ func init() {
 		Doc: "each handler output is marshalled and written as one text frame", Run: runWritePath})
 }
 
+// A channel of the gate is named by an index: i ≥ 0 is fn's i-th parameter; i ≤ -2 is field
+// #(-i-2) of fn's receiver (a per-connection value that carries the connection's channels:
+// `type session struct{ conn; recv chan<- ClientMsg; send chan ServerMsg }`).
+func chanField(i int) int { return -i - 2 }
+
+// chanIs: v is the channel idx of fn.
+func chanIs(fn *ssa.Function, idx int, v ssa.Value) bool {
+	v = an.Unwrap(v)
+	if idx >= 0 {
+		return idx < len(fn.Params) && resolveFree(v) == ssa.Value(fn.Params[idx])
+	}
+	root := fn
+	for root.Parent() != nil {
+		root = root.Parent()
+	}
+	if root.Signature.Recv() == nil || len(root.Params) == 0 {
+		return false
+	}
+	u, ok := v.(*ssa.UnOp)
+	if !ok || u.Op != token.MUL {
+		return false
+	}
+	fa, ok := u.X.(*ssa.FieldAddr)
+	return ok && fa.Field == chanField(idx) && resolveFree(fa.X) == ssa.Value(root.Params[0])
+}
+
+// chanPassed: how the channel idx of fn reaches the callee of call: as its i-th argument, or —
+// a receiver field — because the callee is a method called on the same receiver.
+func chanPassed(fn *ssa.Function, idx int, call *ssa.CallCommon, sc *ssa.Function) []int {
+	var out []int
+	for i, a := range call.Args {
+		if chanIs(fn, idx, a) {
+			out = append(out, i)
+		}
+	}
+	if idx < 0 && sc != nil && sc.Signature.Recv() != nil && len(call.Args) > 0 {
+		root := fn
+		for root.Parent() != nil {
+			root = root.Parent()
+		}
+		if len(root.Params) > 0 && resolveFree(an.Unwrap(call.Args[0])) == ssa.Value(root.Params[0]) && recvTypeName(sc) == recvTypeName(root) {
+			out = append(out, idx)
+		}
+	}
+	return out
+}
+
 // sendsOnParam: fn (transitively, through module helpers) sends on its idx-th
 // parameter. Returns the call/send instructions in fn that do so.
 func sendsOnParam(P *core.Program, fn *ssa.Function, idx int, depth int) []ssa.Instruction {
 	if depth > 4 || idx >= len(fn.Params) {
 		return nil
 	}
-	par := fn.Params[idx]
 	var out []ssa.Instruction
 	an.Instrs(fn, func(in ssa.Instruction) {
 		switch x := in.(type) {
 		case *ssa.Send:
-			if resolveFree(x.Chan) == ssa.Value(par) {
+			if chanIs(fn, idx, x.Chan) {
 				out = append(out, in)
 			}
 		case *ssa.Select:
 			for _, st := range x.States {
-				if st.Dir == types.SendOnly && resolveFree(st.Chan) == ssa.Value(par) {
+				if st.Dir == types.SendOnly && chanIs(fn, idx, st.Chan) {
 					out = append(out, in)
 				}
 			}
@@ -48,9 +94,10 @@ func sendsOnParam(P *core.Program, fn *ssa.Function, idx int, depth int) []ssa.I
 			if sc == nil || !P.InModule(sc) {
 				return
 			}
-			for i, a := range x.Call.Args {
-				if an.Unwrap(a) == ssa.Value(par) && len(sendsOnParam(P, sc, i, depth+1)) > 0 {
+			for _, i := range chanPassed(fn, idx, &x.Call, sc) {
+				if len(sendsOnParam(P, sc, i, depth+1)) > 0 {
 					out = append(out, in)
+					break
 				}
 			}
 		}
@@ -70,15 +117,11 @@ func sendsByVerdict(P *core.Program, call *ssa.Call, sendIdx int, fn *ssa.Functi
 	if bt, ok := h.Signature.Results().At(0).Type().Underlying().(*types.Basic); !ok || bt.Kind() != types.Bool {
 		return nil, false
 	}
-	pi := -1
-	for i, a := range call.Call.Args {
-		if an.Unwrap(a) == ssa.Value(fn.Params[sendIdx]) {
-			pi = i
-		}
-	}
-	if pi < 0 {
+	passed := chanPassed(fn, sendIdx, &call.Call, h)
+	if len(passed) == 0 {
 		return nil, false
 	}
+	pi := passed[len(passed)-1]
 	sends := map[ssa.Instruction]bool{}
 	for _, s := range sendsOnParam(P, h, pi, 0) {
 		if an.InLoop(s.Block()) {
@@ -121,13 +164,12 @@ func mayDropOnParam(P *core.Program, fn *ssa.Function, idx int, depth int) bool 
 	if depth > 4 || idx >= len(fn.Params) {
 		return false
 	}
-	par := fn.Params[idx]
 	drop := false
 	an.Instrs(fn, func(in ssa.Instruction) {
 		switch x := in.(type) {
 		case *ssa.Select:
 			for _, st := range x.States {
-				if st.Dir == types.SendOnly && resolveFree(st.Chan) == ssa.Value(par) && !x.Blocking {
+				if st.Dir == types.SendOnly && chanIs(fn, idx, st.Chan) && !x.Blocking {
 					drop = true
 				}
 			}
@@ -136,8 +178,8 @@ func mayDropOnParam(P *core.Program, fn *ssa.Function, idx int, depth int) bool 
 			if sc == nil || !P.InModule(sc) {
 				return
 			}
-			for i, a := range x.Call.Args {
-				if an.Unwrap(a) == ssa.Value(par) && mayDropOnParam(P, sc, i, depth+1) {
+			for _, i := range chanPassed(fn, idx, &x.Call, sc) {
+				if mayDropOnParam(P, sc, i, depth+1) {
 					drop = true
 				}
 			}
@@ -175,7 +217,30 @@ func resolveGate(c *core.Ctx) *gate {
 				}
 			}
 		}
-		if g.recvIdx < 0 || g.sendIdx < 0 {
+		if (g.recvIdx < 0 || g.sendIdx < 0) && fn.Signature.Recv() != nil {
+			// the channels as fields of the per-connection value the function is a method of
+			rt := fn.Signature.Recv().Type()
+			if pt, ok := rt.(*types.Pointer); ok {
+				rt = pt.Elem()
+			}
+			if st, ok := rt.Underlying().(*types.Struct); ok {
+				for i := 0; i < st.NumFields(); i++ {
+					if ch, ok := st.Field(i).Type().Underlying().(*types.Chan); ok {
+						switch typeNameOf(ch.Elem()) {
+						case "ClientMsg":
+							if g.recvIdx < 0 {
+								g.recvIdx = -i - 2
+							}
+						case "ServerMsg":
+							if g.sendIdx < 0 {
+								g.sendIdx = -i - 2
+							}
+						}
+					}
+				}
+			}
+		}
+		if g.recvIdx == -1 || g.sendIdx == -1 {
 			continue
 		}
 		// the parse happens in fn or in a private helper fn hands the payload to; of several
@@ -374,8 +439,8 @@ func runGateOneNotice(c *core.Ctx) {
 		// busy (select with a default case) loses it
 		if call, ok := s.(*ssa.Call); ok {
 			sc := an.StaticCallee(&call.Call)
-			for i, a := range call.Call.Args {
-				if sc != nil && an.Unwrap(a) == ssa.Value(fn.Params[g.sendIdx]) && mayDropOnParam(P, sc, i, 0) {
+			for _, i := range chanPassed(fn, g.sendIdx, &call.Call, sc) {
+				if sc != nil && mayDropOnParam(P, sc, i, 0) {
 					droppable = append(droppable, fmt.Sprintf("%s at %s", sc.Name(), P.Pos(call.Pos())))
 				}
 			}
@@ -534,6 +599,11 @@ func runRecvOwner(c *core.Ctx) {
 	var uses, bad []string
 	closers := 0
 	var closerFn, readerFn *ssa.Function
+	type carrier struct {
+		obj   *ssa.Call
+		field int
+	}
+	var carriers []carrier
 	for _, f := range an.WithAnon(serve) {
 		an.Instrs(f, func(in ssa.Instruction) {
 			ops := in.Operands(nil)
@@ -573,6 +643,20 @@ func runRecvOwner(c *core.Ctx) {
 					bad = append(bad, "non-deferred close at "+P.Pos(in.Pos()))
 					return
 				}
+				// handed to the constructor of a per-connection value that only keeps it in a field:
+				// what counts is which of that value's methods send on the field (second pass below)
+				if sc := an.StaticCallee(&x.Call); sc != nil && an.PrivateHelper(sc) {
+					for i, a := range x.Call.Args {
+						if an.MakeChanOf(a) != mc {
+							continue
+						}
+						if k, ok := keptInField(sc, i); ok {
+							carriers = append(carriers, carrier{x, k})
+							uses = append(uses, "kept in a field of the per-connection value built by "+sc.Name())
+							return
+						}
+					}
+				}
 				bad = append(bad, "passed to "+an.CalleeName(&x.Call)+" at "+P.Pos(in.Pos()))
 			case *ssa.Send:
 				bad = append(bad, "direct send at "+P.Pos(in.Pos()))
@@ -583,11 +667,72 @@ func runRecvOwner(c *core.Ctx) {
 			}
 		})
 	}
+	for _, cr := range carriers {
+		senders := 0
+		for _, f := range an.WithAnon(serve) {
+			for _, ci := range calls(f) {
+				sc := an.StaticCallee(ci.Common())
+				if sc == nil || !P.InModule(sc) || sc.Signature.Recv() == nil || len(ci.Common().Args) == 0 || resolveFree(an.Unwrap(ci.Common().Args[0])) != ssa.Value(cr.obj) {
+					continue
+				}
+				if len(sendsOnParam(P, sc, -cr.field-2, 0)) > 0 {
+					senders++
+					readerFn = f
+					uses = append(uses, "sent on by the reader method "+sc.Name())
+				}
+			}
+		}
+		if senders != 1 {
+			bad = append(bad, fmt.Sprintf("%d methods of the per-connection value send on the inbound channel", senders))
+		}
+		// the value itself goes nowhere else
+		if cr.obj.Referrers() != nil {
+			for _, r := range *cr.obj.Referrers() {
+				switch x := r.(type) {
+				case *ssa.Call, *ssa.Go, *ssa.Defer:
+					if com := x.(ssa.CallInstruction).Common(); len(com.Args) > 0 && com.Args[0] == ssa.Value(cr.obj) && an.StaticCallee(com) != nil {
+						continue
+					}
+					bad = append(bad, "the per-connection value is handed on at "+P.Pos(r.Pos()))
+				case *ssa.MakeClosure, *ssa.DebugRef, *ssa.Store, *ssa.FieldAddr:
+				default:
+					bad = append(bad, fmt.Sprintf("the per-connection value is used by %T at %s", r, P.Pos(r.Pos())))
+				}
+			}
+		}
+	}
 	c.Check(len(bad) == 0 && closers == 1 && closerFn != nil && closerFn == readerFn && closerFn.Parent() != nil, nil, fname(c, serve), "inbound-channel/owner", P.Pos(mc.Pos()),
 		"the inbound channel is used only by: "+strings.Join(uses, "; ")+" — sent on and closed by the reader goroutine alone",
 		fmt.Sprintf("the handler's inbound channel has another sender/closer (closers=%d, same goroutine as reader=%v): %s", closers, closerFn == readerFn, strings.Join(bad, "; ")))
 	// one forwarding site down the reader chain
 	c.Check(len(g.forwards) == 1, nil, fname(c, g.fn), "inbound-channel/single-send", P.Pos(g.fn.Pos()), "exactly one send site on the inbound channel", fmt.Sprintf("%d send sites on the inbound channel", len(g.forwards)))
+}
+
+// keptInField: the constructor ctor does nothing with its i-th parameter but store it into one
+// field of the struct it allocates and returns; reports that field.
+func keptInField(ctor *ssa.Function, i int) (int, bool) {
+	if i >= len(ctor.Params) || ctor.Params[i].Referrers() == nil {
+		return 0, false
+	}
+	field, n := -1, 0
+	for _, r := range *ctor.Params[i].Referrers() {
+		switch x := r.(type) {
+		case *ssa.DebugRef:
+		case *ssa.Store:
+			fa, ok := x.Addr.(*ssa.FieldAddr)
+			if !ok || x.Val != ssa.Value(ctor.Params[i]) {
+				return 0, false
+			}
+			if _, isAlloc := fa.X.(*ssa.Alloc); !isAlloc {
+				return 0, false
+			}
+			field = fa.Field
+			n++
+		default:
+			return 0, false
+		}
+	}
+	return field, n == 1
 }
 
 func runWritePath(c *core.Ctx) {
@@ -601,6 +746,27 @@ func runWritePath(c *core.Ctx) {
 		for _, p := range fn.Params {
 			if ch, ok := p.Type().Underlying().(*types.Chan); ok && typeNameOf(ch.Elem()) == "ServerMsg" && ch.Dir() == types.RecvOnly {
 				loop = fn
+			}
+		}
+	}
+	if loop == nil {
+		// a method of a per-connection value that carries the outbound channel in a field
+		for _, fn := range P.ModFuncs {
+			if fn.Pkg != P.Root || fn.Parent() != nil || fn.Signature.Recv() == nil || len(an.RegionCalls(fn, nil, "encoding/json.Marshal")) == 0 || len(an.RegionCalls(fn, nil, "(*github.com/coder/websocket.Conn).Write")) == 0 {
+				continue
+			}
+			rt := fn.Signature.Recv().Type()
+			if pt, ok := rt.(*types.Pointer); ok {
+				rt = pt.Elem()
+			}
+			st, ok := rt.Underlying().(*types.Struct)
+			if !ok {
+				continue
+			}
+			for i := 0; i < st.NumFields(); i++ {
+				if ch, ok := st.Field(i).Type().Underlying().(*types.Chan); ok && typeNameOf(ch.Elem()) == "ServerMsg" {
+					loop = fn
+				}
 			}
 		}
 	}
